@@ -37,6 +37,41 @@ CLAIMS = {
              "tables equal Annex 10 Table 3-9 on every legal code. Correspondence: every (position, code), random legal strings, guards.",
         note="callsign() deletes '#': position independence for illegal codes is not claimed (nor required by the property).",
         design="8 C10", technique="Lean 4 proof (structural round-trip over build/slice lemmas + table certificate) + correspondence"),
+    "C01": dict(
+        text="(in progress) Theorem so far: the generator literals of crc and crc_legacy are 0x1FFF409. The byte-wise divider is tied to "
+             "/repo by correspondence on all 1-bit and 2-bit frames of both lengths and random frames, and the property itself "
+             "(remainder = independent polynomial division, parity closure, burst<=24 and weight<=5 detection) is evaluated on the real code.",
+        note="remainder / linearity / detection theorems are being added; until then the detection claims rest on the correspondence + spec oracle.",
+        design="8 C01", technique="Lean 4 proof (GF(2) algebra over the model) + correspondence incl. all 1-/2-bit frames"),
+    "C02": dict(
+        text="Theorems: icao is the upper-cased AA field for DF11/17/18, None for every format outside 0/4/5/11/16/17/18/20/21, DF clamp. "
+             "AP-overlay recovery is checked on the real code for DF x length x hex case x addresses through an independent parity encoder.",
+        note="icao_AP theorem depends on the C01 algebra (in progress).",
+        design="8 C02", technique="Lean 4 proof + correspondence over DF x length x case x address"),
+    "C11": dict(
+        text="Theorems: generic Doc 9871 row decoders (status-gated unsigned / two's-complement field) are functions of their status, sign "
+             "and value bits only and invert the field encoder for every width/value/other bits (ufield_spec, sfield_spec, ufield_roundtrip). "
+             "Every exported field decoder is tied to its Doc 9871 row by exhaustive correspondence (all raw values x status x sign x random other bits) "
+             "and `commb.f is bdsXX.f` is asserted for the 40 exported names.",
+        note="module wiring is a checked fact, not a theorem.",
+        design="8 C11", technique="Lean 4 proof (generic field-row theorems) + per-field exhaustive correspondence"),
+    "C13": dict(
+        text="Theorems on the regenerated tables: totality of the TC->NUCp/NICv1/NICv2 look-ups over TC 5-18, 20-22, totality of the category tables, "
+             "monotonicity (higher category never looser) of NUCp/NACp/NUCv/NACv/SIL and of TC->NUCp; is_emergency_spec. TC28/29/31 field "
+             "decoders tied by exhaustive correspondence against an independent DO-260B oracle.",
+        note="float literals of uncertainty.py are read as exact decimals.",
+        design="8 C13", technique="Lean 4 proof (decide +kernel on regenerated tables, field theorems) + exhaustive correspondence"),
+    "C14": dict(
+        text="Res-valued model with partial primitives (crash = any non-RuntimeError exception); guard theorems are being added per decoder. "
+             "Outcome class of ~110 entry points compared with the model and with the documented (DF, TC, subtype) domain over DF x TC x subtype x "
+             "payload style x {28,14} hex digits. Two open findings are reported as KNOWN-FINDING (short frames, reserved TC29 subtypes).",
+        note="tell() is checked on the real code only (not modelled).",
+        design="8 C14", technique="Lean 4 proof (guard theorems over a Res-valued model) + exhaustive outcome-class correspondence"),
+    "C18": dict(
+        text="Theorems: uplink_fields agrees with pr/ic for UF11; non-roll-call, non-UF11 formats carry no fields. All field decoders and uplink_icao are "
+             "tied by correspondence (UF x RR x DI, SD products, UF11 product, 6000+ addresses x both lengths through the Annex 10 uplink AP encoder).",
+        note="uplink_icao_roundtrip theorem depends on the C01 algebra (in progress).",
+        design="8 C18", technique="Lean 4 proof + product correspondence"),
 }
 
 
